@@ -272,7 +272,13 @@ pub fn execute(set: &dyn DynSet, xi: &[u8; 32], xi_other: &[u8; 32], ops: &[Op],
     let info = set.info();
     let mut finds: Vec<Finding> = Vec::new();
     // reference model: the generated pair, never restarted, never moved through the store
-    let (pk0, sk0) = catch(|| set.keygen_seed(xi)).map_err(|p| format!("reference keygen panicked: {p}"))?;
+    let (pk0, sk0) = match catch(|| set.keygen_seed(xi)) {
+        Ok(p) => p,
+        Err(p) => {
+            // nothing else can be judged on this history; key generation must not panic either
+            return Ok(vec![Finding { prop: "C13", invariant: "panic:keygen_from_seed".into(), at_op: 0, observed: format!("keygen_from_seed panicked: {p}"), expected: "a key pair".into() }]);
+        }
+    };
     let pk0_bytes = pk0.to_bytes();
     let (opk, osk) = set.keygen_seed(xi_other);
     let (other_pk_bytes, other_sk_bytes) = (opk.to_bytes(), osk.to_bytes());
@@ -386,15 +392,17 @@ pub fn execute(set: &dyn DynSet, xi: &[u8; 32], xi_other: &[u8; 32], ops: &[Op],
             Op::SkClone { src } => {
                 let s = &sks[src % sks.len()];
                 let (honest, prov) = (s.honest, format!("{}>clone", s.prov));
-                if let Some(k) = guard!(i, "PrivateKey::clone", s.obj.dup()) {
-                    sks.push(SkRep { obj: k, honest, prov });
+                let via_from = src % 2 == 1; // odd references use Clone::clone_from into another pair's object
+                if let Some(k) = guard!(i, "PrivateKey::clone", if via_from { s.obj.dup_via_clone_from() } else { s.obj.dup() }) {
+                    sks.push(SkRep { obj: k, honest, prov: if via_from { format!("{prov}_from") } else { prov } });
                 }
             }
             Op::PkClone { src } => {
                 let s = &pks[src % pks.len()];
                 let (honest, derived, prov) = (s.honest, s.derived, format!("{}>clone", s.prov));
-                if let Some(k) = guard!(i, "PublicKey::clone", s.obj.dup()) {
-                    pks.push(PkRep { obj: k, honest, derived, prov });
+                let via_from = src % 2 == 1;
+                if let Some(k) = guard!(i, "PublicKey::clone", if via_from { s.obj.dup_via_clone_from() } else { s.obj.dup() }) {
+                    pks.push(PkRep { obj: k, honest, derived, prov: if via_from { format!("{prov}_from") } else { prov } });
                 }
             }
             Op::Restart { sk, pk } => {
@@ -476,7 +484,7 @@ pub fn execute(set: &dyn DynSet, xi: &[u8; 32], xi_other: &[u8; 32], ops: &[Op],
                 if tuples.is_empty() {
                     continue;
                 }
-                let tu = &tuples[t % tuples.len()];
+                let tu = if *t >= 999_999 { &tuples[tuples.len() - 1] } else { &tuples[t % tuples.len()] };
                 let (mut msg, mut ctx, mut sig) = (tu.msg.clone(), tu.ctx.clone(), tu.sig.clone());
                 let mut changed = false;
                 if let Some((art, f)) = fault {
@@ -542,7 +550,17 @@ pub fn execute(set: &dyn DynSet, xi: &[u8; 32], xi_other: &[u8; 32], ops: &[Op],
                     Some(f) => mp.extend_from_slice(&f),
                     None => mp.extend_from_slice(msg),
                 }
+                // the internal interface itself must refuse an over-long context argument ...
+                if let Some(Ok(_)) = guard!(i, "_internal_sign", s.obj.sign_internal_ctx(msg, &ctx, *rnd)) {
+                    finds.push(Finding { prop: "C07", invariant: "signer-accepts-overlong-context".into(), at_op: i, observed: format!("_internal_sign with a {cl}-byte context returned a signature"), expected: "Err".into() });
+                }
                 let Some(Ok(sig)) = guard!(i, "_internal_sign", s.obj.sign_internal(&mp, *rnd)) else { continue };
+                // ... and so must internal verification (the message is taken as already formatted)
+                for p in pks.iter() {
+                    if let Some(true) = guard!(i, "_internal_verify", p.obj.verify_internal(&mp, &sig, &ctx)) {
+                        finds.push(Finding { prop: "C07", invariant: "verifier-accepts-overlong-context".into(), at_op: i, observed: format!("_internal_verify with a {cl}-byte context returned true (replica `{}`)", p.prov), expected: "verification returns false".into() });
+                    }
+                }
                 bump(&mut st.faults_fired, "channel/signature_over_wrapped_length_byte");
                 for p in pks.iter() {
                     st.verifies += 1;
@@ -856,6 +874,19 @@ pub fn gen_size_ladder(p: &mut Prng) -> Vec<Op> {
     ops
 }
 
+/// Bulk signing with one key: per-signature rare events (a rejection loop that runs for dozens of rounds)
+/// occur once in 10^4..10^5 signatures.
+pub fn gen_bulk_history(p: &mut Prng, n: usize, verify_every: usize) -> Vec<Op> {
+    let mut ops = Vec::new();
+    for j in 0..n {
+        ops.push(Op::Sign { sk: 0, msg: (j as u32).to_le_bytes().to_vec(), ctx: vec![], mode: MODES[j % 4], rnd: p.array32(), via_os: false });
+        if verify_every > 0 && j % verify_every == 0 {
+            ops.push(Op::Deliver { t: 999_999, fault: None });
+        }
+    }
+    ops
+}
+
 struct RunOut {
     stats: Stats,
     viols: Vec<Violation>,
@@ -898,14 +929,25 @@ pub fn run(ctx: &Ctx) -> i32 {
         0
     };
     let n_ladder: u64 = if prop == "C06" { match ctx.tier { Tier::Quick => 6, Tier::Thorough => 60 } } else { 0 };
-    let outs = run_indexed((n + n_short + n_ladder) as usize, ctx.workers, |i| {
+    // bulk signing: 400 signatures per history
+    let n_bulk: u64 = match (prop, ctx.tier) {
+        ("C13", Tier::Quick) => ctx.scaled(if ctx.flavour == "checked" { 200 } else { 400 }),
+        ("C13", Tier::Thorough) => ctx.scaled(3000),
+        ("C01", Tier::Quick) => ctx.scaled(90),
+        ("C01", Tier::Thorough) => ctx.scaled(1500),
+        _ => 0,
+    };
+    let outs = run_indexed((n + n_short + n_ladder + n_bulk) as usize, ctx.workers, |i| {
         let short = (i as u64) >= n && (i as u64) < n + n_short;
-        let ladder = (i as u64) >= n + n_short;
+        let ladder = (i as u64) >= n + n_short && (i as u64) < n + n_short + n_ladder;
+        let bulk = (i as u64) >= n + n_short + n_ladder;
         let mut p = Prng::for_run(ctx.seed, if ladder { "world-ladder" } else if short { "world-short" } else { "world" }, i as u64);
         let set = all[i % all.len()];
         let xi = p.array32();
         let xi_other = p.array32();
-        let ops = if ladder { gen_size_ladder(&mut p) } else if short { gen_short_history(&mut p, set) } else { gen_history(&mut p, set) };
+        let ops = if bulk {
+            gen_bulk_history(&mut p, 400, if prop == "C01" { 1 } else { 0 })
+        } else if ladder { gen_size_ladder(&mut p) } else if short { gen_short_history(&mut p, set) } else { gen_history(&mut p, set) };
         let mut stats = Stats::default();
         let mut out = RunOut { stats: Stats::default(), viols: Vec::new(), harness: None, sample: None, digest: 0 };
         match execute(set, &xi, &xi_other, &ops, &mut stats) {
@@ -991,7 +1033,7 @@ pub fn run(ctx: &Ctx) -> i32 {
         samples,
         exhaustive: false,
         extra: json!({
-            "histories": n, "short_histories": n_short, "size_ladder_histories": n_ladder, "runs": n + n_short + n_ladder,
+            "histories": n, "short_histories": n_short, "size_ladder_histories": n_ladder, "bulk_signing_histories": n_bulk, "runs": n + n_short + n_ladder + n_bulk,
             "runs_per_hour": if wall > 0.0 { (n as f64 / wall * 3600.0) as u64 } else { 0 },
             "operations": tot.ops, "signatures_made": tot.signs, "verifications": tot.verifies,
             "loads_from_store": tot.loads, "loads_rejected": tot.rejected_loads, "restarts": tot.restarts,
